@@ -479,7 +479,8 @@ def handleA (E : Env) (decls : List (String Ã— TraitType)) (ops : List (String Ã
   let rec go (st : Assign.State) : List (String Ã— String Ã— Val) â†’ List String
     | [] => []
     | (kind, name, v) :: rest =>
-      -- `new`: constructor keyword on a fresh object; `set` / `tset`: the same setattr path
+      -- `new`: constructor keyword on a fresh object; `set` / `tset` / `qset` (trait_set with
+      -- trait_change_notify=False) / `setq` (trait_setq): the same setattr path
       let st0 := if kind = "new" then [] else st
       match Assign.assign E cls st0 name v with
       | .error e => (if e == .traitError then "TraitError" else "exc " ++ e.name) :: go st rest
